@@ -112,6 +112,7 @@ def verus_part(unit_name, threads=16, rlimit=200, builder_kwargs=None, tag='', i
                    assumption_scan=assumption_scan(unit.text()))
     pr.unit = unit
     pr.res = res
+    pr.assumptions = list(unit.assumptions)
     if res.compile_errors:
         pr.undecided.append('verus/rustc rejected the woven file (not a verification failure):\n' + '\n'.join(res.compile_errors[:3]))
     for u in res.undecided:
